@@ -28,10 +28,25 @@ pub fn setup_world(dir: &str, setup: &Value) -> World {
 	for _ in 0..nfund {
 		w.mine(Some("w1"), &[]);
 	}
+	// a second funded account on w1 (model constant FundAcct2)
+	let fund2 = setup["fund2"].as_bool().unwrap_or(false);
+	if fund2 {
+		w.create_account("w1", "acct1");
+		w.set_active("w1", "acct1");
+		for _ in 0..nfund {
+			w.mine(Some("w1"), &[]);
+		}
+		w.set_active("w1", "default");
+	}
 	for _ in 0..pad {
 		w.mine(None, &[]);
 	}
 	w.refresh("w1", 1);
+	if fund2 {
+		w.set_active("w1", "acct1");
+		w.refresh("w1", 1);
+		w.set_active("w1", "default");
+	}
 	w.refresh("w2", 1);
 	w
 }
